@@ -357,6 +357,7 @@ type FuncResult struct {
 	ParamTerms  []string
 	ParamNames  []string
 	ParamTypes  []string
+	StaleNames  []string // invariants that could not be stated because a local they name is gone
 }
 
 // verifyFunction generates all obligations for one function under contract.
@@ -586,6 +587,7 @@ func (p *Program) verifyFunction(key string) *FuncResult {
 	}()
 	res.Obligations = g.obls
 	res.Unsupported = g.unsupported
+	res.StaleNames = g.staleNames
 	return res
 }
 
